@@ -58,10 +58,12 @@ def render(shape):
         if k == 0:
             impl += "".join(f"  function mk{j}(v) result(t)\n    !! makes a ty{j}\n    integer, intent(in) :: v\n    type(ty{j}) :: t\n    t%comp{j} = v\n  end function mk{j}\n"
                             for j in range(shape["types"]))
-        units.append(f"module mo{k}\n  !! module {k} see [[mo0]]\n{use}  implicit none\n  integer :: mv{k} = 1\n    !! variable\n    !!\n    !! second paragraph about the variable\n{spec}{sub_iface}contains\n"
+        units.append(f"module mo{k}\n  !! module {k} see [[mo0]]" + (" and [[mo1(module):mv1]]" if shape["modules"] >= 2 else "") + f"\n{use}  implicit none\n  integer :: mv{k} = 1\n    !! variable\n    !!\n    !! second paragraph about the variable\n{spec}{sub_iface}contains\n"
                      f"  subroutine hs{k}(a)\n    !! module procedure {k}\n    !!\n    !! second paragraph about module procedure {k}\n    integer :: a\n      !! argument\n      !!\n      !! second paragraph about the argument\n  end subroutine hs{k}\n{impl}end module mo{k}\n")
     for j in range(shape["submodules"]):
-        units.append(f"submodule (mo0) sm{j}\n  !! submodule {j}\ncontains\n  module subroutine ms{j}(a)\n    integer :: a\n    call hs0(a)\n  end subroutine ms{j}\nend submodule sm{j}\n")
+        # the first submodule is called like the second module (its page must not take the module's place)
+        smname = "mo1" if (j == 0 and shape["modules"] >= 2) else f"sm{j}"
+        units.append(f"submodule (mo0) {smname}\n  !! submodule {j}\ncontains\n  module subroutine ms{j}(a)\n    integer :: a\n    call hs0(a)\n  end subroutine ms{j}\nend submodule {smname}\n")
     for k in range(shape["programs"]):
         spec = "".join(inner_types + inner_abs + inner_nl) if (k == 0 and not host_is_module) else ""
         use = "  use mo0\n" if shape["modules"] else ""
@@ -97,8 +99,10 @@ OPTSETS = [
     {"graph": True, "_via_symlink": True},
 ]
 
-PAGES = {"pages/index.md": "---\ntitle: Notes\n---\n\nSee [[mo0]] and [sub](sub/index.html) and |url|/index.html\n",
-         "pages/sub/index.md": "---\ntitle: Sub\n---\n\nBack to [top](../index.html).\n",
+PAGES = {"pages/index.md": "---\ntitle: Notes\nordered_subpage: sub\n---\n\nSee [[mo0]] and [sub](sub/index.html) and |url|/index.html and the attached [data](data.txt)\n",
+         "pages/data.txt": "1 2 3\n",
+         "pages/sub/index.md": "---\ntitle: Sub\nordered_subpage: leaf.md\n---\n\nBack to [top](../index.html); attached [figure](fig.txt).\n",
+         "pages/sub/fig.txt": "a figure\n",
          "pages/sub/leaf.md": "---\ntitle: Leaf\n---\n\nLeaf page, see [[pr0]] and |page|/index.html\n"}
 
 
